@@ -210,7 +210,30 @@ func c11(c *Ctx) {
 				c.ok("mode/apply-follows-page1", "K2 Guarded (value identity on go/ssa)", d, okN)
 			}
 		}
-		c.OnlyIn("mode/writers", p.Writes("litefs.DB.mode"), []string{pat("litefs.NewDB"), pat("litefs.(*DB).initFromDatabaseHeader"), pat("litefs.(*DB).CommitJournal"), pat("litefs.(*DB).CommitWAL"), pat("litefs.(*DB).ApplyLTXNoLock"), pat("litefs.(*DB).Drop"), pat("litefs.(*DB).initDatabaseFile"), pat("litefs.(*DB).Open")}, 4, "DB.mode is written only by initialisation, the two commit paths, the apply and the drop", "")
+		c.OnlyIn("mode/writers", p.Writes("litefs.DB.mode"), []string{pat("litefs.NewDB"), pat("litefs.(*DB).initFromDatabaseHeader"), pat("litefs.(*DB).CommitJournal"), pat("litefs.(*DB).CommitWAL"), pat("litefs.(*DB).ApplyLTXNoLock"), pat("litefs.(*DB).Drop"), pat("litefs.(*DB).initDatabaseFile"), pat("litefs.(*DB).Open"), pat("litefs.(*DB).rollbackJournalSegment")}, 4, "DB.mode is written only by initialisation, the two commit paths, the apply, the drop and the journal rollback", "")
+		{
+			// F43: a rolled-back page 1 carries the journal mode of the state returned to
+			rs := "litefs.(*DB).rollbackJournalSegment"
+			frame := `litefs\.\(\*JournalReader\)\.ReadFrame\(p2\)`
+			pg1 := G(`^\(1 == `+frame+`#0\)$`, true)
+			b18 := G(`^\(2 == `+frame+`#1\[18\]\)$`, true)
+			b19 := G(`^\(2 == `+frame+`#1\[19\]\)$`, true)
+			modeW := p.Writes("litefs.DB.mode")
+			storeOf := func(v string) IM {
+				return func(in ssa.Instruction) bool { return modeW(in) && fieldStoreVal(p, in) == v }
+			}
+			next := func(in ssa.Instruction) bool {
+				_, isRet := in.(*ssa.Return)
+				return isRet || p.PlainCalls("litefs.(*JournalReader).ReadFrame")(in)
+			}
+			c.AfterEdge("mode/rollback-follows-page1/every-restored-page1", rs, pg1, modeW, next, 1,
+				"whenever the journal rollback restores page 1 the recorded journal mode is stored again before the next record is read or the function returns", "F43: a rolled-back switch to or from WAL left the old mode recorded; the internal write lock then takes the lock set of the wrong mode, which does not exclude readers of the real one")
+			c.GuardedPaths("mode/rollback-follows-page1/wal", rs, storeOf("1"), [][]*Guard{{pg1}, {b18}, {b19}}, 1,
+				"WAL mode is recorded from a restored page only for page 1 with read and write version 2", "")
+			c.Guarded("mode/rollback-follows-page1/rollback", rs, storeOf("0"), gs(pg1), 1, "rollback mode is recorded from a restored page only for page 1", "")
+			c.ExpectAll("mode/rollback-follows-page1/same-bytes", c.CallArgs(rs, p.PlainCalls("litefs.(*DB).writeDatabasePage"), 3), pat("litefs.(*JournalReader).ReadFrame(p2)#1"), 1,
+				"the bytes the mode is read from are the bytes written to the database", "")
+		}
 	}
 
 	// ---- nolock family ----
